@@ -139,15 +139,37 @@ class Obs:
                 'err': self.err[:600].decode('utf-8', 'replace')}
 
 
+def _die_with_parent():
+    # PR_SET_PDEATHSIG = 1: the kernel kills this child when the worker that started it dies
+    try:
+        import ctypes
+        ctypes.CDLL(None).prctl(1, signal.SIGKILL)
+    except Exception:
+        pass
+
+
 def _limits():
     resource.setrlimit(resource.RLIMIT_AS, (4 << 30, 4 << 30))
     resource.setrlimit(resource.RLIMIT_CORE, (0, 0))
+
+
+def _limits_self():
+    """children inherit: no core dumps, 8 GiB address space (the explorer itself stays far below)"""
+    try:
+        resource.setrlimit(resource.RLIMIT_CORE, (0, 0))
+        soft, hard = resource.getrlimit(resource.RLIMIT_AS)
+        lim = 8 << 30
+        if hard == resource.RLIM_INFINITY or hard >= lim:
+            resource.setrlimit(resource.RLIMIT_AS, (lim, hard))
+    except (ValueError, OSError):
+        pass
 
 
 class Env:
     """Per-worker execution environment: private HOME, scratch dir, run counter."""
 
     def __init__(self, binary, hooks=False, tag='w', parent=None):
+        _limits_self()
         self.binary = binary
         self.hooks = hooks
         self.base = tempfile.mkdtemp(prefix='fsx-%s-' % tag, dir=parent or SCRATCH_BASE)
@@ -192,10 +214,11 @@ class Env:
         if user is not None:
             cmd = ['setpriv', '--reuid', str(user), '--regid', str(user), '--clear-groups'] + cmd
         try:
+            # no preexec_fn: lets subprocess use vfork; the resource limits are inherited from this process
             p = subprocess.Popen(cmd, cwd=cwd or self.base, env=e,
                                  stdin=subprocess.PIPE if stdin is not None else subprocess.DEVNULL,
                                  stdout=subprocess.PIPE, stderr=subprocess.PIPE,
-                                 preexec_fn=_limits, start_new_session=True)
+                                 start_new_session=True)
         except OSError as ex:
             raise MachineryError('cannot exec subject: %s' % ex)
         try:
@@ -474,6 +497,12 @@ class Explorer:
         finally:
             pool.terminate()
             pool.join()
+            for fn in os.listdir(rundir):
+                if fn.startswith('pid.'):
+                    try:
+                        os.killpg(int(fn[4:]), signal.SIGKILL)
+                    except (OSError, ValueError):
+                        pass
             rmtree(rundir)
         if machinery:
             raise MachineryError(machinery['machinery'] + '\n' + machinery['group'])
@@ -610,15 +639,25 @@ class Batch:
 
             def pre():
                 _limits()
+                _die_with_parent()
                 os.chroot(jail)
                 os.chdir(cwd)
             self.p = subprocess.Popen(['/L/ld.so', '--library-path', '/L', '/L/fselect'], env=e, stdin=subprocess.PIPE,
                                       stdout=subprocess.PIPE, stderr=subprocess.PIPE, preexec_fn=pre,
                                       start_new_session=True, bufsize=0)
         else:
+            def pre2():
+                _limits()
+                _die_with_parent()
             self.p = subprocess.Popen([self.env.binary], cwd=self.cwd, env=e, stdin=subprocess.PIPE,
-                                      stdout=subprocess.PIPE, stderr=subprocess.PIPE, preexec_fn=_limits,
+                                      stdout=subprocess.PIPE, stderr=subprocess.PIPE, preexec_fn=pre2,
                                       start_new_session=True, bufsize=0)
+        # backup: the explorer kills every recorded server when the pool is torn down
+        try:
+            with open(os.path.join(os.path.dirname(self.env.base), 'pid.%d' % self.p.pid), 'w') as f:
+                f.write(str(self.p.pid))
+        except OSError:
+            pass
         for f in (self.p.stdout, self.p.stderr):
             os.set_blocking(f.fileno(), False)
 
